@@ -30,7 +30,7 @@ pub fn gen_base(seed: u64, idx: u64) -> Plan {
             c.c2s = gen_wire(&mut r, false);
             c.s2c = gen_wire(&mut r, false);
         }
-        let role = r.below(8);
+        let role = r.below(9);
         let mut steps = Vec::new();
         let mut reqs = Vec::new();
         match role {
@@ -122,6 +122,18 @@ pub fn gen_base(seed: u64, idx: u64) -> Plan {
                     steps.push(Step::Close);
                 }
                 reqs.push(w.plan());
+            }
+            8 => {
+                // HTTP/2 connection with overlapping streams, client stays
+                c.kind = ConnKind::H2;
+                let n = r.usize_in(2, 4);
+                for j in 0..n {
+                    let body = if r.chance(1, 3) { let k = r.usize_in(0, 300); Some(r.bytes(k)) } else { None };
+                    let w = work(nonce, r.range(1, 3) as u32, r.range(50, 500), *r.pick(&[0usize, 200, 3000]), body);
+                    nonce += 1;
+                    c.h2.push(w.h2(j, r.range(0, 400)));
+                    reqs.push(w.plan());
+                }
             }
             _ => {
                 // pipelined requests
